@@ -77,3 +77,7 @@ pub use crate::quantile::interpolate::verif_index_api::{
     float_quantile_index_fraction, higher_index, lower_index,
 };
 pub use crate::sort::verif_get_many_from_sorted_mut_unchecked as get_many_from_sorted_mut_unchecked;
+pub use crate::summary_statistics::{
+    verif_central_moment_coefficients as central_moment_coefficients,
+    verif_horner_method as horner_method,
+};
